@@ -139,8 +139,11 @@ def enc_hdr(b, abstract_meta=()):
 B_ENTRY, B_STRING, B_PREAMBLE, B_EXPL, B_IMPL, B_FAILED, B_MWERR, B_DUPKEY, B_DUPFIELD = range(9)
 
 
-def enc_block(b, abstract_meta=()):
-    """Structural encoding of a block (exact class, not isinstance)."""
+def enc_block(b, abstract_meta=(), abstract_prev=False):
+    """Structural encoding of a block (exact class, not isinstance).
+
+    abstract_prev: encode DuplicateBlockKeyBlock.previous_block only by its key (an ImplicitComment stub):
+    used where the aliasing of that reference with the live block is not modelled (see Model/LibAdd.v)."""
     cn = type(b).__name__
     h = enc_hdr(b, abstract_meta)
     if cn == "Entry":
@@ -158,12 +161,14 @@ def enc_block(b, abstract_meta=()):
             return [99, h]
         return [B_FAILED, h, enc_err(b.error)]
     if cn == "MiddlewareErrorBlock":
-        return [B_MWERR, h, enc_err(b.error), enc_block(b.ignore_error_block, abstract_meta)]
+        return [B_MWERR, h, enc_err(b.error), enc_block(b.ignore_error_block, abstract_meta, abstract_prev)]
     if cn == "DuplicateBlockKeyBlock":
-        return [B_DUPKEY, h, enc_str(b.key), enc_block(b.previous_block, abstract_meta),
-                enc_block(b.ignore_error_block, abstract_meta)]
+        prev = ([B_IMPL, [[], [], []], enc_str(str(getattr(b.previous_block, "key", "")))] if abstract_prev
+                else enc_block(b.previous_block, abstract_meta, abstract_prev))
+        return [B_DUPKEY, h, enc_str(b.key), prev, enc_block(b.ignore_error_block, abstract_meta, abstract_prev)]
     if cn == "DuplicateFieldKeyBlock":
-        return [B_DUPFIELD, h, [enc_str(k) for k in sorted(b.duplicate_keys)], enc_block(b.ignore_error_block, abstract_meta)]
+        return [B_DUPFIELD, h, [enc_str(k) for k in sorted(b.duplicate_keys)],
+                enc_block(b.ignore_error_block, abstract_meta, abstract_prev)]
     return [99, h]
 
 
